@@ -1,5 +1,6 @@
 (* C17 -- property theorems only (stub, filled below) *)
 From Coq Require Import List Bool ZArith String.
 From Molli Require Import Model.Job.
+Import ListNotations.
 Example C17_stub : check_bcase (mk_bcase no_settings [] []) = true.
 Proof. reflexivity. Qed.
